@@ -321,13 +321,16 @@ func driveAuth(t *testing.T, in, out string, seed int64) {
 					seq = a.RecvN[ch]
 				}
 				target, data := strings.ToLower(a.W.Marker.String()), []byte{0x01}
-				if m := str(st["call"]); m != "" && m != "none" {
+				if m := str(st["call"]); m != "" && m != "none" && m != "malformed" {
 					_, addr, d := a.privCall(m)
 					target, data = strings.ToLower(addr.String()), d
 				}
 				cdv := packettypes.CallData{ContractAddress: target, CallData: data}
 				cd, err := cdv.ABIPack()
 				must(err)
+				if str(st["call"]) == "malformed" {
+					cd = []byte{1, 2, 3} // not ABI-decodable: the callback itself reverts ("receive packet callback failed")
+				}
 				p := packettypes.Packet{SrcChain: auName(ch), DstChain: a.HostID, Sequence: seq, Sender: "0xsender", TransferData: []byte{}, CallData: cd, CallbackAddress: "", FeeOption: 0}
 				bz, err := p.ABIPack()
 				must(err)
